@@ -40,6 +40,10 @@ func init() {
 		c06Follower(c)
 		c05Extras(c)
 	}})
+	register(&PropertyRule{ID: "C10", Explain: "structural necessary conditions of C10 (membership changes): see DESIGN.md §5 C10", Run: func(c *Check) {
+		c10ConfChange(c)
+		gQuorumJoint(c)
+	}})
 	register(&PropertyRule{ID: "C03", Explain: "structural necessary conditions of C03 (log matching): see DESIGN.md §5 C03", Run: func(c *Check) {
 		gTrunc(c)
 		gStable(c)
